@@ -249,7 +249,11 @@ def run_fields(ast, envd, grid, spec, t, bc_of, vector=False):
     except G.DomainBug as e:
         raise HarnessError(f"generator produced an ill-defined formula: {e}") from None
     shape = full if (np.ndim(r.v) <= len(full) and not vector) else (grid.dim, *full)
-    return np.broadcast_to(r.v, shape), np.broadcast_to(r.E, shape), ev
+    E = r.E
+    if np.any(ev.bad):
+        # cells within round-off of a jump of Mod are not judged
+        E = np.where(np.broadcast_to(ev.bad, np.broadcast(E, ev.bad).shape), np.inf, E)
+    return np.broadcast_to(r.v, shape), np.broadcast_to(E, shape), ev
 
 
 def compare(got, want, E, what, key, tolk, rel=None):
@@ -586,9 +590,15 @@ FIELD_NAMES = ["c", "u", "v", "phi", "a", "b", "s", "rho", "c1", "n_A", "h"]
 OPS_SCALAR = ["laplace", "gradient_squared", "dotgrad", "divgrad", "integral"]
 
 
+#: local terms with the modulo function (after missed seed C10-5: the compiled printer wrote Mod as fmod,
+#: which differs from the interpreted `%` where dividend and divisor have opposite signs)
+PROFILE_PDE_MOD = dict(G.PROFILE_PDE, mod=True, mod_weight=10)
+
+
 @st.composite
 def small_local(draw, leaves, ranges, depth=2, budget=5):
-    b = G.Builder(draw, leaves, ranges, G.PROFILE_PDE, budget)
+    profile = PROFILE_PDE_MOD if draw(st.sampled_from([False, False, True])) else G.PROFILE_PDE
+    b = G.Builder(draw, leaves, ranges, profile, budget)
     return b.node(draw(st.sampled_from([d for d in (2, 1) if d <= depth])), root=True)
 
 
@@ -851,6 +861,8 @@ def expr_labels(case, used, alts):
         if G.names_in(a, ("uconst",)):
             labs.append("uses:consts")
             break
+    if any("call2:Mod" in G.kinds_of(a) for _, a in case["rhs"]):
+        labs.append("uses:Mod")
     labs += ["shape:" + a for a in alts]
     if any(bc_has_expr(b) for b in [case["bc"], *case["bc_ops"].values()]):
         labs.append("bc:time-dependent-expression")
